@@ -284,6 +284,19 @@ func H_C12deep(f, n int) {
 	Entry(src, 13)
 }
 
+// H_C12letdouble: n lets each mentioning the previous binding twice. The compiled
+// text doubles per let (KNOWN FINDING, see known_findings.json: substitution is textual,
+// so 400 bytes of source make hundreds of megabytes of SQL and run for seconds).
+func H_C12letdouble(n int) {
+	src := "let a = 1;"
+	for i := 0; i < n; i++ {
+		src += "let a = a + a;"
+	}
+	src += "T | where a"
+	verif.Cover("let-doubling")
+	Entry(src, 13)
+}
+
 // H_C12long is totality on the framed byte-level families of C09 (long strings, names,
 // comments and numbers with arbitrary bytes at either end, unterminated ones included).
 func H_C12long(f, nmax int) {
